@@ -105,6 +105,9 @@ const (
 	OpUpToDate     = "uptodate"
 	OpRead         = "read"
 	OpSetAuto      = "setauto"
+	OpBegin        = "begin"  // NewAddition + Addition.Add per transaction; the lock stays held
+	OpCommit       = "commit" // Commit + Close of the handle's open Addition
+	OpAbort        = "abort"  // Close of the handle's open Addition without Commit
 )
 
 type OpSpec struct {
